@@ -293,6 +293,17 @@ fn view_name(app: &trippy_tui::verif::TuiApp) -> String {
 
 /// Set once a draw has hung in this process: the thread that hung keeps a core busy for the rest of
 /// the run, so later sessions avoid the one column set that is known to do that.
+/// The column set as it appears in signatures: the layout solver defect (known finding) shows with
+/// wide column sets - the full 27 column set and the 18 column set have both been seen to fail, at
+/// different terminal widths - so those are keyed as one class; narrower sets are named.
+pub fn column_class(columns: &str) -> String {
+    if columns.chars().count() >= 18 {
+        "wide(18-or-more-of-27)".to_string()
+    } else {
+        columns.to_string()
+    }
+}
+
 static HANG_SEEN: std::sync::atomic::AtomicBool = std::sync::atomic::AtomicBool::new(false);
 
 pub fn session(seed: u64, i: usize, tier: Tier, which: Which, progress: &crate::framework::Progress) -> Outcome {
@@ -318,8 +329,8 @@ pub fn session(seed: u64, i: usize, tier: Tier, which: Which, progress: &crate::
         with_geoip: r.chance(2, 3),
     };
     let mut setup = setup;
-    if setup.columns.len() == 27 && HANG_SEEN.load(std::sync::atomic::Ordering::Relaxed) {
-        setup.columns = "holsravbwdtjgxiSPQ".to_string();
+    if setup.columns.len() >= 18 && HANG_SEEN.load(std::sync::atomic::Ordering::Relaxed) {
+        setup.columns = "holsravbwdt".to_string();
     }
     let site = format!("{protocol}/{strategy}/traces{traces}");
     let replay = json!({"how": format!("vcheck {} --seed {seed} --only {i}", if which == Which::Crash { "C17" } else { "C18" }), "scenario": i, "setup": format!("{setup:?}")});
@@ -456,7 +467,7 @@ pub fn session(seed: u64, i: usize, tier: Tier, which: Which, progress: &crate::
                 return o;
             }
         }
-        progress.step(|| format!("view={}|columns={}|size={}x{}|hops={}|{}", view_name(&s.app), setup.columns, s.size.0, s.size.1, s.app.tracer_data().hops().len(), replay["how"].as_str().unwrap_or("")));
+        progress.step(|| format!("view={}|columns={}|size={}x{}|hops={}|{}", view_name(&s.app), column_class(&setup.columns), s.size.0, s.size.1, s.app.tracer_data().hops().len(), replay["how"].as_str().unwrap_or("")));
         if std::env::var("VERIF_TRACE").is_ok() {
             eprintln!("cycle {c}: size {:?} view {} columns {:?} hops {} sel {:?} | {}", s.size, view_name(&s.app), setup.columns, s.app.tracer_data().hops().len(), s.app.table_state.selected(), history.last().cloned().unwrap_or_default());
         }
@@ -473,7 +484,7 @@ pub fn session(seed: u64, i: usize, tier: Tier, which: Which, progress: &crate::
                     let base = view_name(&s.app);
                     let base = base.split('+').next().unwrap_or("").to_string();
                     let view = if ["chart", "map", "splash", "error"].contains(&base.as_str()) { base } else { "table".to_string() };
-                    o.violate("layout_solver_fails", format!("view={view}|columns={}", setup.columns), format!("{ctx}: render at {}x{} panicked at {}:{}: {}", s.size.0, s.size.1, p.file, p.line, p.message), replay.clone());
+                    o.violate("layout_solver_fails", format!("view={view}|columns={}", column_class(&setup.columns)), format!("{ctx}: render at {}x{} panicked at {}:{}: {}", s.size.0, s.size.1, p.file, p.line, p.message), replay.clone());
                     return o;
                 }
                 Err(p) if p.in_repo() => {
